@@ -308,3 +308,79 @@ func HarnessC16Alias(_ int) {
 	vnAssert(r.Err() != nil, "C16.alias.f0-still-lacks-b-without-a-call-option")
 	vnCover("C16.alias-checked")
 }
+
+// HarnessC16Conv — the value supplied for a key is the one injected, also when another
+// parameter of the same call has to be produced by a converter whose result ALSO carries
+// that key: the parameter a has an exactly matching option (as a default, as a call
+// option overriding a default, or twice in the call), the parameter b comes from a
+// converter func(P2) (a P0, b P1).
+func HarnessC16Conv(_ int) {
+	hOrderSites(0)
+	var gotA, gotB int
+	ran := 0
+	fn := func(in struct {
+		Struct
+		A hP0
+		B hP1
+	}) {
+		ran++
+		gotA, gotB = in.A.ID, in.B.ID
+	}
+	conv := func(in hP2) struct {
+		Struct
+		A hP0
+		B hP1
+	} {
+		return struct {
+			Struct
+			A hP0
+			B hP1
+		}{A: hP0{vnUF("convA", in.ID)}, B: hP1{vnUF("convB", in.ID)}}
+	}
+	d, c1, c2, y := vnPayload("dflt"), vnPayload("call1"), vnPayload("call2"), vnPayload("y")
+	var defaults, call []Arg
+	want := 0
+	desc := ""
+	switch hPick("pattern", 4) {
+	case 0: // default only
+		defaults = append(defaults, Named("a", hP0{d}))
+		want = d
+		desc = "a as a construction default"
+	case 1: // call option overrides the default (other casing)
+		defaults = append(defaults, Named("a", hP0{d}))
+		call = append(call, Named("A", hP0{c1}))
+		want = c1
+		desc = "default a overridden by call option A"
+	case 2: // twice in the call: the last wins
+		call = append(call, Named("a", hP0{c1}), Named("A", hP0{c2}))
+		want = c2
+		desc = "a twice among the call options"
+	default: // call option only
+		call = append(call, Named("a", hP0{c1}))
+		want = c1
+		desc = "a as a call option"
+	}
+	call = append(call, Typed(hP2{y}), Converter(conv))
+	if vnBool("converterFirst") {
+		call = append([]Arg{call[len(call)-1]}, call[:len(call)-1]...)
+		desc += ", converter listed first"
+	}
+	vnNote(desc + "; b must come from a converter whose result also carries a")
+	f, err := NewFunc(fn, defaults...)
+	vnAssert(err == nil, "C16.conv.setup")
+	if err != nil {
+		return
+	}
+	var r Result
+	if hGuardPlain(func() { r = f.Call(call...) }) {
+		vnAssert(false, "C16.conv.call-does-not-panic")
+		return
+	}
+	vnAssert(r.Err() == nil && ran == 1, "C16.conv.call-succeeds")
+	if r.Err() != nil {
+		return
+	}
+	vnAssert(gotB == vnUF("convB", y), "C16.conv.converted-parameter")
+	vnAssert(gotA == want, "C16.conv.supplied-value-for-the-key-is-the-one-injected")
+	vnCover("C16.conv-checked")
+}
